@@ -6,7 +6,7 @@ import sys
 
 import z3
 
-from symx import core, symstr
+from symx import gen, core, symstr
 from symx.core import And, Or, Not, SymInt, SymReal
 from symx.symstr import SymStr, SymChar, Num, fresh_char
 
@@ -227,7 +227,43 @@ def roundtrip(c, g, level, text, make, label_prefix=""):
             return "erased rejected"
         c.prove(tree_eq(drop_weights(tree(obj, g)), drop_weights(tree(obj3, g))), "extension-less print denotes the same tokens and descriptors",
                 detail("extension-less print denotes different tokens / descriptors"))
+    if level == "molecule":
+        # "hence the same molecule under an identically seeded random generator": both objects generate with one and the same
+        # scripted stream (first option of positive probability at every pick, one fixed target per block)
+        try:
+            gable = bool(obj.generable) and bool(obj2.generable)
+        except Exception as e:
+            core.reraise_if_harness(e)
+            gable = False
+        if gable:
+            outs = []
+            for o in (obj, obj2):
+                gen.install_observers(g, gen.Observer())
+                gen.DRAW_FN[0] = gen.scripted_draw([45.0] * 16)
+                try:
+                    r = o.generate(rng=_FirstPossible())
+                    outs.append((r.smiles, r.weight))
+                except Exception as e:
+                    core.reraise_if_harness(e)
+                    outs.append((f"raised {type(e).__name__}", None))
+            c.prove(outs[0] == outs[1], "same molecule under the same generator stream", detail("the re-parsed object generates another molecule from the same stream"))
     return "ok"
+
+
+class _FirstPossible:
+    """generator stub: the first option of positive probability (decided by the solver where the probability is symbolic)"""
+
+    def __deepcopy__(self, memo):
+        return self
+
+    def choice(self, a, size=None, replace=True, p=None, **kw):
+        items = list(range(a)) if isinstance(a, int) else list(a)
+        if p is None:
+            return items[0]
+        for it, q in zip(items, list(p.v) if hasattr(p, "v") else list(p)):
+            if q > 0:
+                return it
+        raise core.emulated(ValueError("probabilities do not sum to 1"))
 
 
 def core_exceptions():
